@@ -128,7 +128,7 @@ func run(c *simrun.Ctx) *simrun.Violation {
 	proto0 := pickType(t)
 	mt := proto0.ProtoReflect().Type()
 	md := mt.Descriptor()
-	cfg := simval.GenCfg{MaxDepth: 1 + t.Draw("maxdepth", 3), MaxFields: 1 + t.Draw("maxfields", 6), MaxMapEntries: 2 + t.Draw("maxentries", 11), MaxListLen: 1 + t.Draw("maxlist", 4), Unknown: t.Chance("unknowns", 1, 4), AnyTargets: anyTargets(), InvalidUTF8: t.Chance("allow-invalid-utf8", 1, 5)}
+	cfg := simval.GenCfg{MaxDepth: 1 + t.Draw("maxdepth", 3), MaxFields: 1 + t.Draw("maxfields", 6), MaxMapEntries: 2 + t.Draw("maxentries", 11), MaxListLen: 1 + t.Draw("maxlist", 4), Unknown: t.Chance("unknowns", 1, 4), AnyTargets: anyTargets(), InvalidUTF8: t.Chance("allow-invalid-utf8", 1, 5), Huge: t.Chance("allow-huge", 1, 12), ManyKeys: t.Chance("allow-manykeys", 1, 24)}
 	if t.Chance("bigmaps", 1, 16) {
 		// maps large enough to cross any small-map threshold (8, 16, 32, 64 entries)
 		cfg.MaxMapEntries = 17 + t.Draw("bigmapn", 64)
